@@ -42,18 +42,30 @@ var errNotStart = errors.New("xmpp: SendElement did not begin with a StartElemen
 // before starting a handler as soon as the handler finishes reading the element
 // it is given (if it doesn't read the entire element the lock will be released
 // after the handler returns).
+//
+// Any other error is remembered and returned by all later reads: once a stream
+// level construct or a tokenizer error has been met inside the element nothing
+// that follows may be handed out, even to a handler that ignores the error, and
+// the session must not carry on with the next element.
 type earlyCloser struct {
-	r xml.TokenReader
-	c io.Closer
+	r   xml.TokenReader
+	c   io.Closer
+	err error
 }
 
-func (ec earlyCloser) Token() (xml.Token, error) {
+func (ec *earlyCloser) Token() (xml.Token, error) {
+	if ec.err != nil {
+		return nil, ec.err
+	}
 	tok, err := ec.r.Token()
-	if err == io.EOF {
+	switch {
+	case err == io.EOF:
 		e := ec.c.Close()
 		if e != nil {
 			err = e
 		}
+	case err != nil:
+		ec.err = err
 	}
 	return tok, err
 }
@@ -624,7 +636,7 @@ func handleInputStream(s *Session, handler Handler) (err error) {
 	defer w.Close()
 	verifhook.Yield("serve.handler.before")
 	rw := &responseChecker{
-		TokenReader: earlyCloser{
+		TokenReader: &earlyCloser{
 			r: xmlstream.InnerElement(r),
 			c: rc,
 		},
